@@ -389,7 +389,7 @@ def run(model, tier="quick"):
     effects_check(res, model, F + "_get_reduce_debt_result_in_vault", REF_REDUCE_IN_VAULT,
                   "LP redemption burns min(oSQTH, debt), adds the ETH, charges the bounty, clears the LP id", WALLET, opaque=OPQ)
     effects_check(res, model, F + "update", REF_UPDATE, "a vault is liquidated iff get_vault_status says not safe",
-                  WALLET, opaque=OPQ)
+                  WALLET, opaque=[x for x in OPQ if x != "get_vault_status"])   # the status predicate is inlined
     effects_check(res, model, F + "liquidate", REF_LIQUIDATE_OUTER,
                   "vault liquidation sequence: unsafe only; redeem LP with bounty; stop if safe; add the bounty back; liquidate "
                   "up to the whole debt", WALLET, opaque=OPQ, keep_raise_effects=False, ordered=True)
